@@ -338,6 +338,7 @@ func TestC44(t *testing.T) {
 			r.Sample(map[string]any{"case": cd, "teardown_winner": w, "disconnected_calls": disc.Load(), "handler_panics": pn, "handled": handled.Load()})
 		}
 	}
+	writeErrorFamily(r)
 	r.Set("teardown_winner_histogram", winners)
 	r.Set("handler_panics_contained", panicsContained)
 	r.Set("packets_handled_in_runs_with_panics", postPanicHandled)
